@@ -471,6 +471,18 @@ fn script_drop(k: usize) -> String {
     s
 }
 
+/// Fourth shape (`spawn`): between the first call and the others the script runs a child that INHERITS stdin
+/// (the default of `command(..).run()`) and reads nothing from it: what `read_line` has read ahead must still be
+/// there afterwards (seed C17-e1: the read-ahead "given back" with an `lseek` that fails on a pipe). The result
+/// of the run is printed as one extra line (`true`), which is dropped from the answer.
+fn script_spawn(k: usize) -> String {
+    let mut s = String::from("make l0 get read_line(\"\")\nshout(l0)\nmake c get command(\"/bin/true\")\nmake r get c.run()\nshout(r.success())\n");
+    for i in 1..k {
+        s.push_str(&format!("make l{i} get read_line(\"\")\nshout(l{i})\n"));
+    }
+    s
+}
+
 fn script(k: usize, looped: bool) -> String {
     let mut s = String::new();
     if looped {
@@ -491,13 +503,14 @@ fn cli_case(naija: &str, tmp: &str, from_file: bool, i: usize, request: &str) ->
     };
     let pid = std::process::id();
     let dropping = i % 3 == 2 && req.calls >= 2;
-    let looped = !dropping && i % 2 == 1;
-    let shape = if dropping { "drop" } else if looped { "loop" } else { "flat" };
+    let spawning = !dropping && i % 5 == 4 && req.calls >= 2;
+    let looped = !dropping && !spawning && i % 2 == 1;
+    let shape = if dropping { "drop" } else if spawning { "spawn" } else if looped { "loop" } else { "flat" };
     let script_path = format!("{tmp}/c17-{pid}-k{}-{shape}.ns", req.calls);
     if !std::path::Path::new(&script_path).exists() {
         // written under a private name and renamed, so that no other worker sees half a file
         let part = format!("{script_path}.{i}.part");
-        let text = if dropping { script_drop(req.calls) } else { script(req.calls, looped) };
+        let text = if dropping { script_drop(req.calls) } else if spawning { script_spawn(req.calls) } else { script(req.calls, looped) };
         if std::fs::write(&part, text).is_err() || std::fs::rename(&part, &script_path).is_err() {
             return "machinery(script)".to_string();
         }
@@ -568,6 +581,14 @@ fn cli_case(naija: &str, tmp: &str, from_file: bool, i: usize, request: &str) ->
         let mut results = vec![CallResult::Line(first)];
         results.extend(rest.into_iter().map(|p| CallResult::Line(p.to_vec())));
         return render(&results);
+    }
+    if spawning {
+        // the second output line is the child's `success()`
+        if pieces.len() != req.calls + 1 || pieces[1] != b"true" {
+            return format!("malformed-output({} pieces for {} calls and a child; second piece {:?})", pieces.len(), req.calls,
+                String::from_utf8_lossy(pieces.get(1).copied().unwrap_or_default()));
+        }
+        pieces.remove(1);
     }
     if pieces.len() != req.calls {
         return format!("malformed-output({} pieces for {} calls)", pieces.len(), req.calls);
